@@ -15,6 +15,22 @@ def simple(argv):
     return all(t in allowed for t in toks)
 
 
+def no_index_possible(argv):
+    """an index replaces *several* anchored 5' adapters or *several* anchored 3' adapters (docs: 'multiple anchored adapters'); with at most one
+    of each on the command line none is built whatever the adapters look like, so the first-given rule applies in the default mode as well"""
+    n5 = n3 = 0
+    for i, t in enumerate(argv[:-1]):
+        if t in ("-a", "-g", "-b"):
+            spec = argv[i + 1].split("=", 1)[-1].split(";")[0]
+            if "..." in spec or argv[i + 1].startswith("file:"):
+                return False
+            if t == "-g" and spec.startswith("^"):
+                n5 += 1
+            if t == "-a" and spec.endswith("$"):
+                n3 += 1
+    return n5 <= 1 and n3 <= 1
+
+
 def match_one(ad, seq):
     """match of one (possibly linked) adapter by the documented rules, from its parts; returns (score, errors, trim function, parts)"""
     import cutadapt.adapters as A
@@ -34,7 +50,9 @@ def match_one(ad, seq):
     m = ad.match_to(seq)
     if m is None:
         return None
-    a, b = m.remainder_interval()
+    # what remains, from the match coordinates by the documented rule (5' match: everything after it; 3' match: everything before it) -
+    # not from the match object's own helper, which a change under test may have altered
+    a, b = (m.rstop, len(seq)) if isinstance(m, A.RemoveBeforeMatch) else (0, m.rstart)
     return m.score, m.errors, (a, b)
 
 
@@ -46,11 +64,13 @@ def oracle(ctx, case, res, real):
         return
     if case["paired"] or not simple(argv) or not any(t in argv for t in ("-a", "-g", "-b")):
         return
-    if "--no-index" not in argv:
+    if "--no-index" not in argv and not no_index_possible(argv):
         # the property's rule is stated for searches in which no index is involved (with an index, ties and the adapter order are the
         # index's business: C08); such runs are still compared with the model
         ctx.count("index-may-be-involved:rule-not-applied")
         return
+    if "--no-index" not in argv:
+        ctx.count("default-mode:no-index-possible:rule-applied")
     action = argv[argv.index("--action") + 1] if "--action" in argv else "trim"
     if action not in ("trim", "none", "mask"):
         return
@@ -215,6 +235,39 @@ def directed(ctx):
             if "$" not in ba and rng.random() < 0.3:
                 s = s + fill(1, 4)
             reads.append((f"r{i}", s, "I" * len(s)))
+        cases.append(dict(argv=argv, paired=False, reads1=reads, reads2=None, with_qual=True, interleaved_in=False))
+    # default mode (no --no-index) with one anchored 5' and one anchored 3' adapter, optionally one more adapter of another type: nothing is
+    # indexed, so the order given decides ties; reads carry both adapters exactly (equal score, no errors) or with one mismatch each
+    for _ in range(ctx.scale(40, 500)):
+        L = rng.randint(5, 8)
+        x, y = pipe.rs(rng, L), pipe.rs(rng, L)
+        z = pipe.rs(rng, L)
+        specs = [("-g", "^" + x), ("-a", y + "$")]
+        if rng.random() < 0.5:
+            specs.append(rng.choice([("-a", z), ("-g", z), ("-b", z)]))
+        rng.shuffle(specs)
+        argv = []
+        if rng.random() < 0.5:
+            argv += ["-e", rng.choice(["0", "0.2"])]
+        for i, (fl, sp) in enumerate(specs):
+            argv += [fl, f"a{i}={sp}"]
+        if rng.random() < 0.5:
+            argv += ["--times", str(rng.randint(2, 3))]
+        if rng.random() < 0.3:
+            argv += ["--action", rng.choice(["none", "mask"])]
+        argv += ["-o", "{dir}/o1.fastq"]
+        reads = []
+        for i in range(6):
+            def mut(c):
+                if rng.random() < 0.3:
+                    j = rng.randrange(len(c))
+                    return c[:j] + rng.choice("ACGT") + c[j + 1:]
+                return c
+            mid = pipe.rs(rng, rng.randint(0, 10))
+            if len(specs) == 3 and rng.random() < 0.5:
+                mid = mid[: len(mid) // 2] + z + mid[len(mid) // 2:]
+            s_ = (mut(x) if rng.random() < 0.85 else "") + mid + (mut(y) if rng.random() < 0.85 else "")
+            reads.append((f"r{i}", s_, "I" * len(s_)))
         cases.append(dict(argv=argv, paired=False, reads1=reads, reads2=None, with_qual=True, interleaved_in=False))
     return cases
 
